@@ -16,7 +16,7 @@ from ..core import rule, AnalysisError
 from ..engine import rx, flow, cfg as cfgmod
 from ..engine import pattern as P
 from ..engine.facts import dotted, const, src, walk_func, str_value, enclosing_stmt, ancestors
-from .common import calls, in_try_handling, contains, stmt_nodes, pn, access_paths, assigned_from, guards_of, arms, branch_paths, return_leaves, resolve, guard_implies
+from .common import calls, in_try_handling, contains, stmt_nodes, pn, access_paths, assigned_from, guards_of, arms, branch_paths, return_leaves, resolve, guard_implies, resolve_deep, facts_at
 
 
 def _precedence(e):
@@ -133,7 +133,7 @@ def decode_wrap(ctx):
     ctx.require(under_bom, "BOM branch not found")
     b = under_bom[0]
     sl = [s for s in under_bom if isinstance(s, ast.Assign) and src(s.targets[0]) == pn(fn, 1)]
-    ctx.check(bool(sl) and src(sl[0].value).replace(" ", "") == "%s[len(codecs.BOM_UTF8):]" % pn(fn, 1), "bom-removed-exactly", db.where(b), "the BOM is not removed by text[len(codecs.BOM_UTF8):]", "text continues right after the mark")
+    ctx.check(bool(sl) and src(resolve_deep(fn, sl[0].value, 2)).replace(" ", "") == "%s[len(codecs.BOM_UTF8):]" % pn(fn, 1), "bom-removed-exactly", db.where(b), "the BOM is not removed by text[len(codecs.BOM_UTF8):]", "text continues right after the mark")
     encv = {c.args[0].id for c in dec}
     pe = [s for s in under_bom if isinstance(s, ast.Assign) and src(s.targets[0]) in encv]
     ctx.check(bool(pe) and all(const(p_.value) in ("utf-8", "utf8", "UTF-8") for p_ in pe), "bom-means-utf8", db.where(b), "a BOM does not select UTF-8", "BOM selects utf-8")
@@ -205,10 +205,29 @@ def module_encoding(ctx):
     ms = db.func("template.ModuleInfo.source")
     enc_ = pn(ms, 0) + ".module._source_encoding"
     decs = [c for c in walk_func(ms) if isinstance(c, ast.Call) and isinstance(c.func, ast.Attribute) and c.func.attr == "decode"]
-    good = bool(decs) and all(len(c.args) >= 1 and src(resolve(ms, c.args[0])) == enc_ and guard_implies(guards_of(c, ms), enc_) for c in decs)
+    rr_ = flow.Reaching(ms)
+
+    def values_of(e_, at_):
+        """what a (possibly re-bound) local may hold at a statement: the values of its reaching definitions, else the expression"""
+        if isinstance(e_, ast.Name):
+            try:
+                ds_ = rr_.defs_at(at_, e_.id)
+            except AnalysisError:
+                ds_ = []
+            vs_ = [d_.value for d_ in ds_ if isinstance(d_, ast.Assign) and len(d_.targets) == 1 and isinstance(d_.targets[0], ast.Name)]
+            if vs_ and len(vs_) == len(ds_):
+                return [l_ for v_ in vs_ for l_ in arms(v_)]
+        return arms(e_)
+    good = bool(decs)
+    for c in decs:
+        st_ = enclosing_stmt(c)
+        codec_ok = len(c.args) >= 1 and all(src(v_) == enc_ for v_ in values_of(c.args[0], st_))
+        fa_ = {t_ for t_, tv_ in facts_at(c, ms) if tv_}
+        guarded_ = enc_ in fa_ or (len(c.args) >= 1 and src(c.args[0]) in fa_)
+        good = good and codec_ok and guarded_
     # what is read from the template file is bytes: it is one of the values decoded
     rd = [c for c in walk_func(ms) if isinstance(c, ast.Call) and (dotted(c.func) or "").endswith("read_file")]
-    good = good and bool(rd) and any(any(l_ is rd[0] for l_ in arms(resolve(ms, c.func.value))) for c in decs)
+    good = good and bool(rd) and any(any(l_ is rd[0] for l_ in values_of(c.func.value, enclosing_stmt(c))) for c in decs)
     ctx.check(good, "source-decoding", db.where(ms), "Template.source does not decode with module._source_encoding", "every decode in ModuleInfo.source uses module._source_encoding under a test that it is set (%d decodes)" % len(decs))
 
 
